@@ -2,6 +2,7 @@ package fr
 
 import (
 	"fmt"
+	"os"
 
 	sdk "github.com/cosmos/cosmos-sdk/types"
 
@@ -244,4 +245,31 @@ func (e *Env) Project(ctx sdk.Context) (State, error) {
 		st.Supply[d] = bk.GetSupply(ctx, GoDenom(d)).Amount.Int64()
 	}
 	return st, nil
+}
+
+var devNull, _ = os.OpenFile(os.DevNull, os.O_WRONLY, 0)
+
+// ModuleInvariants runs the three invariants the module registers (keeper/invariants.go) on ctx and
+// returns the route names of the broken ones, in registration order.  The functions print debug
+// lines to os.Stdout, which is the trace stream of fr-replay: it is pointed at /dev/null meanwhile.
+func (e *Env) ModuleInvariants(ctx sdk.Context) []string {
+	out := []string{}
+	saved := os.Stdout
+	if devNull != nil {
+		os.Stdout = devNull
+	}
+	defer func() { os.Stdout = saved }()
+	for _, x := range []struct {
+		name string
+		inv  sdk.Invariant
+	}{
+		{"selling-pool-reserve-amount", frkeeper.SellingPoolReserveAmountInvariant(e.K)},
+		{"paying-pool-reserve-amount", frkeeper.PayingPoolReserveAmountInvariant(e.K)},
+		{"vesting-pool-reserve-amount", frkeeper.VestingPoolReserveAmountInvariant(e.K)},
+	} {
+		if _, broken := x.inv(ctx); broken {
+			out = append(out, x.name)
+		}
+	}
+	return out
 }
